@@ -3,12 +3,33 @@
  * Serves C03 (no read past the end, fixed buffers, return codes), C16 (what is consumed / looked ahead), C10 (token grammar and
  * classification), C01 (what is appended to the string builder / handed to parseNumber).
  * Every loop is closed by a loop contract (jsonscan.loops.json) => inputs of every length. */
+/* Configurations (configs.json; the driver passes -DCFG_<config>=1):
+ *   def64, cmt  every routine (cmt: skipSpacesAndComments with comments)
+ *   nan, inf    skipNumericValue / parseNumericValue: canBeInNumber() admits letters when ARDUINOJSON_ENABLE_NAN or
+ *               ARDUINOJSON_ENABLE_INFINITY is set (consumption classes: json_ghost.h NUM_MAY_CONSUME / NUM_MUST_CONSUME)
+ *   nouni       skipQuotedString / parseQuotedString with ARDUINOJSON_DECODE_UNICODE=0: a \u escape is not decoded, its six
+ *               characters are kept verbatim
+ *   nodbl, noll parseNumericValue: the switch over the Number kinds without the Double case (ARDUINOJSON_USE_DOUBLE=0) /
+ *               with JsonInteger = long (ARDUINOJSON_USE_LONG_LONG=0)
+ * In nan / inf the canary of the two number obligations is option-specific (the letter 'a' is declared not consumable). */
+#if (defined(CANARY_SKIPNUMERIC) || defined(CANARY_PARSENUMERIC)) && (defined(CFG_nan) || defined(CFG_inf))
+#define CANARY_NUM_LETTERS 1
+#endif
 #include "json_ghost.h"
 /* sinks referenced by loop contracts must be declared before the lowered text */
 static unsigned g_app_n;
 static unsigned char g_app_last;
 static _Bool g_builder_valid;
 static _Bool g_first_loaded; /* the latch was loaded when the routine under test started */
+#ifdef CFG_nouni
+/* ARDUINOJSON_DECODE_UNICODE=0 (named by jsonscan_nouni.loops.json) */
+static unsigned g_esc_n;     /* two-character escapes translated so far (each consumes two bytes and appends one) */
+static _Bool g_u_kept;       /* a backslash was appended while the 'u' behind it was waiting in the latch: \u kept verbatim */
+static void *g_jd;           /* the deserializer under test (the append stub looks at its latch) */
+#ifdef APP_LOG
+static unsigned char g_app_buf[16]; /* the first 16 appended bytes (unit jsonscan_nouni: loops unwound, no loop contracts) */
+#endif
+#endif
 #ifdef VERIF_NATIVE
 #include "lowered_types.h"
 #else
@@ -20,8 +41,15 @@ int StubReader__read(struct StubReader *self) {
   (void)self;
   CHECK(!g_ended, "C03: no byte is read after the end of the input was delivered");
   if (g_have_last && !ghost_allowed(g_last)) g_bad_consumed = 1; /* a new read means the previous byte was consumed */
+#if ARDUINOJSON_ENABLE_COMMENTS
+  if (g_have_last) cm_consume(g_last); /* comment automaton over the consumed bytes (json_ghost.h) */
+#endif
+  if (g_sq_on && g_have_last) sq_consume(g_last); /* string automaton of skipQuotedString (json_ghost.h) */
   int c = (int)in_u16() - 1;
   __CPROVER_assume(c >= -1 && c <= 255);
+#ifdef BOUND_READS /* bounded units: the input ends with the BOUND_READS-th byte at the latest */
+  __CPROVER_assume(g_reads + 1 < BOUND_READS || c <= 0);
+#endif
   if (g_reads < 8) g_log[g_reads] = (unsigned char)(c > 0 ? c : 0);
   g_reads++;
   g_last = c > 0 ? c : 0;
@@ -31,7 +59,16 @@ int StubReader__read(struct StubReader *self) {
 }
 
 /* ---- string builder sink (C01: what is appended) ---- */
-void StringBuilder__append__char(struct StringBuilder *self, char c) { (void)self; g_app_n++; g_app_last = (unsigned char)c; }
+void StringBuilder__append__char(struct StringBuilder *self, char c) {
+  (void)self;
+#ifdef CFG_nouni
+  if (c == '\\' && g_jd && ((JD *)g_jd)->latch_.loaded_ && ((JD *)g_jd)->latch_.current_ == 'u') g_u_kept = 1;
+#ifdef APP_LOG
+  if (g_app_n < 16) g_app_buf[g_app_n] = (unsigned char)c;
+#endif
+#endif
+  g_app_n++; g_app_last = (unsigned char)c;
+}
 _Bool StringBuilder__isValid(struct StringBuilder *self) { (void)self; return g_builder_valid; }
 
 /* ---- callees of parseQuotedString by contract (each contract is proved on the real function in unit `unicode`) ---- */
@@ -54,12 +91,19 @@ unsigned int JsonDeserializer_StubReader__parseHex4(JD *self, unsigned short *re
 /* encodeCodepoint: appends 1..4 bytes to the builder, touches nothing else.  [unicode/utf8_encode] */
 void Utf8__encodeCodepoint_StringBuilder(unsigned int cp, struct StringBuilder *b) { (void)cp; (void)b; g_app_n += 1 + in_u8() % 4; }
 /* unescapeChar: the RFC 8259 table plus the single quote, 0 for anything else.  [unicode/escape_tables] */
-char EscapeSequence__unescapeChar(char c) {
+static char spec_unescape(char c) {
   switch (c) {
     case '"': return '"'; case '\\': return '\\'; case '/': return '/'; case '\'': return '\'';
     case 'b': return '\b'; case 'f': return '\f'; case 'n': return '\n'; case 'r': return '\r'; case 't': return '\t';
     default: return 0;
   }
+}
+char EscapeSequence__unescapeChar(char c) {
+  char r = spec_unescape(c);
+#ifdef CFG_nouni
+  if (r) g_esc_n++;
+#endif
+  return r;
 }
 
 /* ---- number sink ---- */
@@ -90,6 +134,10 @@ static JD *mk_state(unsigned char allowed_class) {
   g_allowed_class = allowed_class;
   g_builder_valid = in_bool();
   g_app_n = 0;
+  g_sq_on = 0;
+#ifdef CFG_nouni
+  g_esc_n = 0; g_u_kept = 0; g_jd = d;
+#endif
   return d;
 }
 static void settle(JD *d) { /* judge the consumption of the last delivered byte */
@@ -97,10 +145,14 @@ static void settle(JD *d) { /* judge the consumption of the last delivered byte 
 }
 #define RET_IN(err, a, b, c) ((err) == (a) || (err) == (b) || (err) == (c))
 
-/* skipSpacesAndComments (default configuration: no comments) */
+/* skipSpacesAndComments.  Default configuration: only SP TAB CR LF are consumed.  Comments configuration (cmt): what may be
+ * consumed, which comments are complete and how the end of the input is classified is judged by the ghost automaton of
+ * json_ghost.h over the consumed bytes (C10: comments only when the option is enabled; a block comment ends at the FIRST
+ * star-slash, a line comment at the newline; a token byte is never swallowed). */
 void h_skipSpaces(void) {
 #if ARDUINOJSON_ENABLE_COMMENTS
-  JD *d = mk_state(0); /* comments are consumed too: no restriction on the consumed bytes in this configuration */
+  JD *d = mk_state(0);
+  g_cm = CM_BETWEEN; g_cm_done = 0; g_cm_run = 0; g_cm_2star = 0;
 #else
   JD *d = mk_state(1);
 #endif
@@ -112,21 +164,41 @@ void h_skipSpaces(void) {
   CHECK(LATCHED(d), "the byte that stopped the scan stays in the latch (one look-ahead)");
   unsigned char cur = (unsigned char)d->latch_.current_;
 #if ARDUINOJSON_ENABLE_COMMENTS
+  unsigned char st = CM_EFF(d); /* the automaton behind every consumed byte */
+  _Bool in_comment = st == CM_BLOCK || st == CM_BLOCK_STAR || st == CM_LINE;
   COVER(err == InvalidInput); COVER(err == IncompleteInput && !found0);
+  COVER(err == Ok && g_cm_2star);                       /* a block comment with two stars before the slash was consumed */
+  COVER(err == Ok && g_cm_done >= 2);                   /* two comments in a row */
+  COVER(err == IncompleteInput && st == CM_BLOCK_STAR); /* the input ends behind a star inside a block comment */
+  COVER(err == IncompleteInput && st == CM_LINE);
+#ifdef BOUND_READS /* bounded unit (loops unwound): the same goals with the bytes spelled out */
+  COVER(err == Ok && g_cm_2star && g_reads == 6 && g_log[0] == '/' && g_log[1] == '*' && g_log[2] == '*' && g_log[3] == '*' && g_log[4] == '/' && g_log[5] == 'x');
+  COVER(err == Ok && g_cm_done == 2 && g_log[0] == '/' && g_log[1] == '/');
+#endif
   CHECK(err == Ok || err == EmptyInput || err == IncompleteInput || err == InvalidInput, "skipSpacesAndComments return codes (comments enabled)");
+  CHECK(st != CM_BAD, "C16/C10: outside comments only SP TAB CR LF and a '/' that opens a comment are consumed (a token byte is never swallowed)");
   CHECK(err != Ok || (cur != 0 && !IS_WS(cur) && cur != '/' && d->foundSomething_), "Ok: a byte that is neither space nor the start of a comment is waiting");
-  CHECK(err != EmptyInput || (cur == 0 && !found0), "EmptyInput: end of input with nothing found so far");
+#ifdef CANARY_SKIPSPACES
+  CHECK(err != Ok || (st == CM_BETWEEN && !g_cm_2star), "C10: Ok => every comment consumed was complete: a block comment ends at its first star-slash, a line comment at the newline");
+#else
+  CHECK(err != Ok || st == CM_BETWEEN, "C10: Ok => every comment consumed was complete: a block comment ends at its first star-slash, a line comment at the newline");
+#endif
+  CHECK(err != EmptyInput || (cur == 0 && !found0 && st == CM_BETWEEN), "EmptyInput: end of input outside comments with nothing found so far");
   CHECK(err != IncompleteInput || cur == 0, "IncompleteInput: only at the end of the input (also inside an unterminated comment)");
-  CHECK(err != InvalidInput || (cur != '*' && cur != '/'), "InvalidInput: a '/' that does not start a comment; the offending byte is not consumed");
+  CHECK(!(cur == 0 && in_comment) || err == IncompleteInput, "C10: the input ends inside a comment => IncompleteInput");
+  CHECK(!(cur == 0 && st == CM_BETWEEN) || err == (found0 ? IncompleteInput : EmptyInput), "end of input outside comments: IncompleteInput after something was found, EmptyInput otherwise");
+  CHECK(err != IncompleteInput || in_comment || (st == CM_BETWEEN && found0) || st == CM_SLASH, "IncompleteInput: inside a comment, or outside with something found (a lone '/' at the end is left open)");
+  CHECK(err != InvalidInput || (st == CM_SLASH && cur != '*' && cur != '/'), "C10: InvalidInput <=> a '/' that does not open a comment; the offending byte is not consumed");
+  CHECK(st != CM_SLASH || err == InvalidInput || (cur == 0 && err == IncompleteInput), "C10: a '/' followed by a byte other than '*' and '/' is InvalidInput");
 #else
   CHECK(RET_IN(err, Ok, EmptyInput, IncompleteInput), "skipSpaces returns Ok, EmptyInput or IncompleteInput only");
   CHECK(!g_bad_consumed, "C16/C10: only SP TAB CR LF are consumed");
   CHECK(err != Ok || (cur != 0 && !IS_WS(cur) && d->foundSomething_), "Ok: a non-space byte is waiting and something was found");
   CHECK(err != EmptyInput || (cur == 0 && !found0), "EmptyInput: end of input with nothing found so far (only whitespace)");
   CHECK(err != IncompleteInput || (cur == 0 && found0), "IncompleteInput: end of input after something was found");
-#endif
 #ifdef CANARY_SKIPSPACES
   CHECK(err != Ok || g_reads != 2, "canary: deliberately false for a reachable case");
+#endif
 #endif
 }
 
@@ -158,20 +230,44 @@ void h_skipKeyword(void) {
 #endif
 }
 
-/* skipQuotedString / parseQuotedString common oracle pieces */
+/* skipQuotedString (the filter's skip path, C11): where the string ends is judged by the ghost automaton of json_ghost.h over
+ * the consumed bytes: it ends at the first unescaped quote of the opening kind; an escaped quote does not close it; an
+ * escaped backslash does not escape the quote behind it; nothing behind the closing quote is consumed or fetched. */
 void h_skipQuoted(void) {
   JD *d = mk_state(0);
   __CPROVER_assume(d->latch_.loaded_ && (d->latch_.current_ == '"' || d->latch_.current_ == '\''));
   char q = d->latch_.current_;
+  g_sq_on = 1; g_sq = SQ_OPEN; g_sq_q = (unsigned char)q; g_sq_escbs = 0; g_sq_end_escbs = 0; g_sq_escq = 0;
+#ifdef BOUND_READS
+  for (unsigned i = 0; i < 8; i++) g_log[i] = 0;
+#endif
   unsigned err = JsonDeserializer_StubReader__skipQuotedString(d);
+  unsigned char st = SQ_EFF(d); /* the automaton behind every consumed byte */
+  /* the closing quote is consumed without a further read(): the flag about it is completed here, like the state */
+  _Bool end_escbs = g_sq_end_escbs || (!LATCHED(d) && g_have_last && g_sq == SQ_IN && g_last == g_sq_q && g_sq_escbs);
   COVER(err == Ok); COVER(err == IncompleteInput); COVER(err == Ok && g_reads > 2);
+  COVER(err == Ok && end_escbs);            /* a string whose text ends in an escaped backslash: the quote behind it closes */
+  COVER(err == Ok && g_sq_escq);            /* an escaped quote inside the string did not close it */
+  COVER(err == IncompleteInput && g_sq_escq); /* ... and the input ended before an unescaped one came */
+#ifdef BOUND_READS /* bounded unit (loops unwound): the same goals with the bytes spelled out */
+  COVER(err == Ok && g_reads == 3 && g_log[0] == '\\' && g_log[1] == '\\' && g_log[2] == (unsigned char)q);
+  COVER(err == Ok && g_reads == 5 && g_log[0] == 'C' && g_log[1] == ':' && g_log[2] == '\\' && g_log[3] == '\\' && g_log[4] == (unsigned char)q);
+  COVER(err == Ok && g_reads == 3 && g_log[0] == '\\' && g_log[1] == (unsigned char)q && g_log[2] == (unsigned char)q);
+#endif
+#ifdef CFG_nouni
+  COVER(err == Ok && g_reads == 3 && g_log[0] == '\\' && g_log[1] == 'u'); /* "\u" closed at once: what parseQuotedString accepts in this configuration */
+#endif
   CHECK(err == Ok || err == IncompleteInput, "skipQuotedString returns Ok or IncompleteInput only");
   CHECK(err != Ok || SAFE(d), "C03: Ok => SAFE (the terminator was not consumed)");
+  CHECK(st != SQ_BAD, "C11/C16: nothing behind the closing quote is consumed");
   CHECK(err != Ok || (!LATCHED(d) && g_last == (unsigned char)q), "C16/C10: Ok => the closing quote (same as the opening one) is the last byte consumed");
-  CHECK(err != IncompleteInput || g_ended, "IncompleteInput only at the end of the input: an unterminated string is never accepted");
 #ifdef CANARY_SKIPQUOTED
-  CHECK(!(err == Ok && g_reads == 2), "canary: deliberately false for a reachable case");
+  CHECK(err != Ok || (st == SQ_DONE && !end_escbs), "C11/C10: Ok => the string ended at the first unescaped quote of the opening kind (an escaped quote does not close it, an escaped backslash does not escape the quote behind it)");
+#else
+  CHECK(err != Ok || st == SQ_DONE, "C11/C10: Ok => the string ended at the first unescaped quote of the opening kind (an escaped quote does not close it, an escaped backslash does not escape the quote behind it)");
 #endif
+  CHECK(err != IncompleteInput || g_ended, "IncompleteInput only at the end of the input: an unterminated string is never accepted");
+  CHECK(err != IncompleteInput || (st != SQ_DONE && st != SQ_BAD), "C10: IncompleteInput only when the input ends before the closing quote");
 }
 
 void h_parseQuoted(void) {
@@ -186,10 +282,74 @@ void h_parseQuoted(void) {
   CHECK(err != IncompleteInput || g_ended, "IncompleteInput only at the end of the input");
   CHECK(err != Ok || g_builder_valid, "Ok only if the builder is still valid");
   CHECK(err != NoMemory || !g_builder_valid, "NoMemory iff the builder became invalid");
+#ifdef CFG_nouni
+  /* ARDUINOJSON_DECODE_UNICODE=0: \uXXXX is not decoded; the documented behaviour is that the escape is left as it is.
+   * Byte accounting over strings of every length (loop invariant of jsonscan_nouni.loops.json): between the quotes every
+   * byte is appended exactly once, except that a two-character escape gives one byte; nothing is dropped, nothing is
+   * decoded.  (The exact bytes: unit jsonscan_nouni, bounded.) */
+  COVER((err == Ok || err == NoMemory) && g_u_kept);
+  COVER(err == Ok && g_esc_n > 0 && g_u_kept);
+#ifdef CANARY_PARSEQUOTED
+  CHECK((err != Ok && err != NoMemory) || g_app_n + g_esc_n + 1 + (g_u_kept && g_app_n == 6) == g_reads, "DECODE_UNICODE=0: every byte between the quotes is appended once (a two-character escape gives one byte, \\u is kept verbatim)");
+#else
+  CHECK((err != Ok && err != NoMemory) || g_app_n + g_esc_n + 1 == g_reads, "DECODE_UNICODE=0: every byte between the quotes is appended once (a two-character escape gives one byte, \\u is kept verbatim)");
+#endif
+#else
 #ifdef CANARY_PARSEQUOTED
   CHECK(!(err == Ok && g_app_n == 1), "canary: deliberately false for a reachable case");
 #endif
+#endif
 }
+
+#if defined(CFG_nouni) && defined(APP_LOG)
+/* unit jsonscan_nouni (bounded, loops unwound, no loop contracts): the exact bytes parseQuotedString appends when
+ * ARDUINOJSON_DECODE_UNICODE=0, for every input of at most BOUND_READS bytes behind the opening quote.  Oracle: the string
+ * grammar of RFC 8259 section 7 read left to right, with the documented treatment of \u in this configuration (not decoded,
+ * left as it is: backslash, 'u' and whatever follows are ordinary characters). */
+void h_parseQuoted_verbatim(void) {
+  JD *d = mk_state(0);
+  __CPROVER_assume(d->latch_.loaded_ && (d->latch_.current_ == '"' || d->latch_.current_ == '\''));
+  char q = d->latch_.current_;
+  for (unsigned i = 0; i < 16; i++) g_app_buf[i] = 0;
+  for (unsigned i = 0; i < 8; i++) g_log[i] = 0;
+  unsigned err = JsonDeserializer_StubReader__parseQuotedString(d);
+  /* the oracle walks the delivered bytes g_log[0 .. g_reads) */
+  unsigned char want[16];
+  unsigned wn = 0, i = 0, werr = IncompleteInput;
+  _Bool done = 0, saw_u = 0;
+  for (unsigned k = 0; k < BOUND_READS; k++) {
+    if (done || i >= g_reads) break;
+    unsigned char b = g_log[i++];
+    if (b == (unsigned char)q) { werr = Ok; done = 1; }
+    else if (b == 0) { werr = IncompleteInput; done = 1; }
+    else if (b == '\\') {
+      unsigned char e = i < g_reads ? g_log[i] : 0;
+      if (e == 0) { werr = IncompleteInput; done = 1; }
+      else if (e == 'u') { want[wn++] = '\\'; saw_u = 1; } /* the 'u' is read again as an ordinary character */
+      else { char t = spec_unescape((char)e); if (!t) { werr = InvalidInput; done = 1; } else { want[wn++] = (unsigned char)t; i++; } }
+    } else want[wn++] = b;
+  }
+  if (werr == Ok && !g_builder_valid) werr = NoMemory;
+  COVER(err == Ok && saw_u && g_reads == 7 && g_log[0] == '\\' && g_log[1] == 'u' && g_log[2] == '0' && g_log[3] == '0' && g_log[4] == '4' && g_log[5] == '1');
+  COVER(err == Ok && saw_u && g_reads == 3);                  /* "\u" closed at once: not an error in this configuration */
+  COVER(err == Ok && saw_u && g_esc_n > 0);
+  COVER(err == IncompleteInput && saw_u);
+  COVER(err == InvalidInput);
+  CHECK(err == werr, "DECODE_UNICODE=0: Ok iff the string is closed by its opening quote and every escape other than \\u is one of the two-character escapes; NUL => IncompleteInput; unknown escape => InvalidInput");
+  if (err == Ok || err == NoMemory) {
+    CHECK(g_app_n == wn, "DECODE_UNICODE=0: as many bytes are appended as the string denotes with \\u left as it is");
+    _Bool same = 1;
+    for (unsigned k = 0; k < 16; k++) if (k < wn && g_app_buf[k] != want[k]) same = 0;
+#ifdef CANARY_VERBATIM
+    CHECK(same && !(saw_u && wn == 6), "DECODE_UNICODE=0: the appended bytes are the string's bytes, \\uXXXX kept verbatim (backslash, u and the four characters)");
+#else
+    CHECK(same, "DECODE_UNICODE=0: the appended bytes are the string's bytes, \\uXXXX kept verbatim (backslash, u and the four characters)");
+#endif
+    CHECK(!LATCHED(d) && g_last == (unsigned char)q, "C16/C10: Ok => the closing quote is the last byte consumed");
+  }
+  CHECK(err != Ok || SAFE(d), "C03: Ok => SAFE");
+}
+#endif
 
 /* skipNonQuotedString / parseNonQuotedString (unquoted identifier keys) */
 void h_skipNonQuoted(void) {
@@ -224,16 +384,36 @@ void h_parseNonQuoted(void) {
 }
 
 /* skipNumericValue / parseNumericValue */
+#if NUM_OPTION_WORDS
+#define D_NUM_CONSUMED "only number bytes are consumed (digits + - . and, with NaN/Infinity enabled, ASCII letters)"
+#define D_NUM_STOP "the scan stops at the first non-number byte (never inside NaN / Infinity)"
+#define D_NUM_STOP63 "the scan stops at the first non-number byte (never inside NaN / Infinity) or at 63 characters"
+#else
+#define D_NUM_CONSUMED "only number bytes are consumed"
+#define D_NUM_STOP "the scan stops at the first non-number byte"
+#define D_NUM_STOP63 "the scan stops at the first non-number byte or at 63 characters"
+#endif
 void h_skipNumeric(void) {
   JD *d = mk_state(2);
+  unsigned char first = (unsigned char)d->latch_.current_;
+  _Bool first_loaded = d->latch_.loaded_;
+  (void)first; (void)first_loaded;
   unsigned err = JsonDeserializer_StubReader__skipNumericValue(d);
   settle(d);
   COVER(g_reads > 1); COVER(g_reads == 0);
+#if NUM_OPTION_WORDS
+  /* option-specific: a letter that is not an exponent marker was consumed as part of a number; a byte that is neither a
+   * default number byte nor a letter stopped the scan */
+  COVER(g_reads >= 2 && g_log[0] == 'a');
+  COVER(g_reads >= 2 && g_log[0] == 'y' && !IS_ASCII_LETTER(d->latch_.current_) && d->latch_.current_ != 0);
+  COVER(g_reads >= 1 && first_loaded && first == 'N');
+  COVER(g_reads >= 1 && first_loaded && first == 'I');
+#endif
   CHECK(err == Ok, "skipNumericValue always returns Ok");
   CHECK(SAFE(d) && LATCHED(d), "C03/C16: exactly one look-ahead byte, never two; SAFE");
-  CHECK(!g_bad_consumed, "only number bytes are consumed");
-  CHECK(!IS_NUM(d->latch_.current_), "the scan stops at the first non-number byte");
-#ifdef CANARY_SKIPNUMERIC
+  CHECK(!g_bad_consumed, D_NUM_CONSUMED);
+  CHECK(!NUM_MUST_CONSUME(d->latch_.current_), D_NUM_STOP);
+#if defined(CANARY_SKIPNUMERIC) && !defined(CANARY_NUM_LETTERS)
   CHECK(g_reads != 2, "canary: deliberately false for a reachable case");
 #endif
 }
@@ -251,22 +431,39 @@ void h_parseNumeric(void) {
   unsigned err = JsonDeserializer_StubReader__parseNumericValue(d, &v);
   settle(d);
   COVER(err == Ok); COVER(err == InvalidInput); COVER(err == NoMemory); COVER(g_reads >= 3);
+#if NUM_OPTION_WORDS
+  /* option-specific: letters other than the exponent marker were buffered as part of a number ("NaN", "Infinity") */
+  COVER(g_reads >= 2 && g_log[0] == 'a');
+  COVER(first_loaded && first == 'N' && g_reads == 3 && g_log[0] == 'a' && g_log[1] == 'N' && err == Ok);
+  COVER(first_loaded && first == 'I' && g_reads == 8 && g_log[6] == 'y' && err == Ok);
+  COVER(g_reads >= 2 && g_log[0] == 'y' && !IS_ASCII_LETTER(d->latch_.current_) && d->latch_.current_ != 0);
+#endif
   CHECK(err == Ok || err == InvalidInput || err == NoMemory, "parseNumericValue return codes");
   CHECK(SAFE(d) && LATCHED(d), "C03/C16: exactly one look-ahead byte; SAFE");
-  CHECK(!g_bad_consumed, "only number bytes are consumed");
+  CHECK(!g_bad_consumed, D_NUM_CONSUMED);
   CHECK(g_pn_arg == d->buffer_, "the text handed to parseNumber is the deserializer's own 64-byte buffer");
   unsigned n = g_reads + (first_loaded ? 1 : 0) - 1; /* bytes consumed: everything delivered except the look-ahead */
   CHECK(n <= 63, "C03: at most 63 characters are buffered");
   CHECK(d->buffer_[n <= 63 ? n : 63] == 0, "C03/C01: the NUL terminator sits right after the consumed characters, inside buffer_[64]");
-  CHECK(n == 63 || !IS_NUM(d->latch_.current_), "the scan stops at the first non-number byte or at 63 characters");
+  CHECK(n == 63 || !NUM_MUST_CONSUME(d->latch_.current_), D_NUM_STOP63);
   /* result mapping: the Number's value reaches the variant setter unchanged (C01) */
   unsigned t = g_number.type_;
+#ifdef CFG_nodbl
+  /* ARDUINOJSON_USE_DOUBLE=0: Number has the kinds Float, SignedInteger, UnsignedInteger only; a tag of 4 is no kind */
+  COVER(t == 4 && err == InvalidInput); COVER(t == 1 && g_set_kind == 3 && err == Ok);
+#ifdef CANARY_PARSENUMERIC
+  CHECK((t >= 1 && t <= 4) == (err != InvalidInput), "Invalid iff parseNumber says so (USE_DOUBLE=0: kinds 1..3)");
+#else
+  CHECK((t >= 1 && t <= 3) == (err != InvalidInput), "Invalid iff parseNumber says so (USE_DOUBLE=0: kinds 1..3)");
+#endif
+#else
   CHECK((t >= 1 && t <= 4) == (err != InvalidInput), "Invalid iff parseNumber says so");
+#endif
   CHECK(err == InvalidInput || (g_set_kind == (t == 3 ? 1 : t == 2 ? 2 : t == 1 ? 3 : 4)), "number type selects the matching setter");
   CHECK(err == InvalidInput || g_set_bits == (t == 1 ? (uint64_t)(uint32_t)g_number.value_.asUnsignedInteger : g_number.value_.asUnsignedInteger), "value bits reach the setter unchanged");
   CHECK(err == InvalidInput || (err == NoMemory) == !g_set_ok, "C05: NoMemory iff the store failed");
   (void)first;
-#ifdef CANARY_PARSENUMERIC
+#if defined(CANARY_PARSENUMERIC) && !defined(CANARY_NUM_LETTERS) && !defined(CFG_nodbl)
   CHECK(!(err == Ok && g_reads == 3), "canary: deliberately false for a reachable case");
 #endif
 }
